@@ -213,11 +213,26 @@ func setMatchedPrimitiveValue(kind reflect.Kind, value reflect.Value, v any) err
 	case reflect.Bool:
 		value.SetBool(v.(bool))
 	case reflect.Int, reflect.Int8, reflect.Int16, reflect.Int32, reflect.Int64:
-		value.SetInt(v.(int64))
+		iv := v.(int64)
+		if value.OverflowInt(iv) {
+			return fmt.Errorf("值 %d 超出类型 %s 的范围", iv, value.Type())
+		}
+
+		value.SetInt(iv)
 	case reflect.Uint, reflect.Uint8, reflect.Uint16, reflect.Uint32, reflect.Uint64:
-		value.SetUint(v.(uint64))
+		uv := v.(uint64)
+		if value.OverflowUint(uv) {
+			return fmt.Errorf("值 %d 超出类型 %s 的范围", uv, value.Type())
+		}
+
+		value.SetUint(uv)
 	case reflect.Float32, reflect.Float64:
-		value.SetFloat(v.(float64))
+		fv := v.(float64)
+		if value.OverflowFloat(fv) {
+			return fmt.Errorf("值 %v 超出类型 %s 的范围", fv, value.Type())
+		}
+
+		value.SetFloat(fv)
 	case reflect.String:
 		value.SetString(v.(string))
 	default:
